@@ -161,9 +161,21 @@ def dequantizer(chk):
             core = core.func.value
         txt = U(core)
         fpath = facts.get(f"{t}.qtype.is_floating_point")
-        diff = f"{t}._data.unpack().to(torch.int8) - {t}._zeropoint.to(torch.int8)"
-        want = [f"{t}._scale * ({diff})", f"({diff}) * {t}._scale", f"{t}._scale * ({diff}).to({t}._scale.dtype)"]
-        chk.require("C02.R3", site, txt in want, f"dequantize term: `{txt[:110]}`", "QBitsDequantizer.forward", "dequantize term", "any low-bit tensor: zero-point not subtracted / subtracted in an unsigned type (wrap-around) / scale not applied")
+        # codes lie in [0, 2**bits - 1] and the zero-point is an int8: the difference ranges over [-127, 143] and needs a signed type
+        # wider than 8 bits (or the float dtype of the scale); uint8 wraps below zero, int8 wraps above 127 (zero-points below -112)
+        WIDE = ("torch.int16", "torch.int32", "torch.int64", f"{t}._scale.dtype", "torch.float32")
+        forms = {}
+        for d_ in WIDE + ("torch.int8", "torch.uint8"):
+            diff_ = f"{t}._data.unpack().to({d_}) - {t}._zeropoint.to({d_})"
+            for w_ in (f"{t}._scale * ({diff_})", f"({diff_}) * {t}._scale", f"{t}._scale * ({diff_}).to({t}._scale.dtype)", f"({diff_}).to({t}._scale.dtype) * {t}._scale"):
+                forms[w_] = d_
+        d_used = forms.get(txt)
+        chk.require("C02.R3", site, d_used is not None, f"dequantize term: `{txt[:110]}` is scale * (codes - zeropoint)", "QBitsDequantizer.forward", "dequantize term", "any low-bit tensor: zero-point not subtracted, or the scale applied to the codes alone")
+        if d_used is not None:
+            chk.require("C02.R3", site, d_used in WIDE, f"dequantize: codes - zeropoint is formed in {d_used} (holds [-127, 143])", "QBitsDequantizer.forward", "zero-point subtracted in an 8-bit type",
+                        "a group confined to [1.0, 1.125] (qint4): zero-point -120, codes 8..15 give code - zeropoint in 128..135, which wraps in int8: dequantized -1.05 instead of 1.1 (error 256 x scale)")
+        if False:
+            chk.require("C02.R3", site, True, "", "", "", "any low-bit tensor: zero-point not subtracted / subtracted in an unsigned type (wrap-around) / scale not applied")
     chk.floor("C02.R3", n, 2, "QBits dequantizer paths")
 
 
